@@ -23,8 +23,8 @@ P2E = '(0 if kwargs["psi"] is None else (kwargs["psi"][3] if type(kwargs["psi"])
 METRIC = '(0 if kwargs["inner_dist"] == "squared euclidean" else 1)'
 CTX = 'DTWctx(s1, s2, kwargs["window"], kwargs["penalty"], kwargs["max_step"], %s, %s, %s)' % (P1B, P2B, METRIC)
 
-ROWS_DONE = ('forall(lambda a, b: implies(T2(a, b) and 0 <= a <= {upto} and 0 <= b <= %s, dtw[a, b] == W(a, b)))' % C)
-ROWS_TODO = ('forall(lambda a, b: implies(T2(a, b) and {frm} < a <= %s and 0 <= b <= %s, '
+ROWS_DONE = ('forall(lambda a, b: implies(0 <= a <= {upto} and 0 <= b <= %s, dtw[a, b] == W(a, b)))' % C)
+ROWS_TODO = ('forall(lambda a, b: implies({frm} < a <= %s and 0 <= b <= %s, '
              'dtw[a, b] == (0 if (b == 0 and a <= psi_1b) else inf)))' % (R, C))
 SETTLED = ['s.window == Wnd()', 's.adj_penalty == Pen()', 's.adj_max_step == MaxStep()', 's.adj_max_dist == inf',
            'psi_1b == %s' % P1B, 'psi_2b == %s' % P2B, 'psi_1e == %s' % P1E, 'psi_2e == %s' % P2E,
@@ -45,17 +45,17 @@ contract(
         'implies(kwargs["max_length_diff"] is not None and abs(%s - %s) > kwargs["max_length_diff"], result == inf)' % (R, C),
         'implies(kwargs["max_length_diff"] is None or abs(%s - %s) <= kwargs["max_length_diff"], '
         'result[0] == vsqrt_if(%s, W(%s, %s)) and '
-        'forall(lambda a, b: implies(T2(a, b) and 0 <= a <= %s and 0 <= b <= %s, result[1][a, b] == vsqrt_if(%s, W(a, b)))))'
+        'forall(lambda a, b: implies(0 <= a <= %s and 0 <= b <= %s, result[1][a, b] == vsqrt_if(%s, W(a, b)))))'
         % (R, C, METRIC, R, C, R, C, METRIC),
     ],
     loops={
         0: dict(head='for i in range(psi_2b + 1)',
-                inv=['forall(lambda a, b: implies(T2(a, b) and 0 <= a <= %s and 0 <= b <= %s, '
+                inv=['forall(lambda a, b: implies(0 <= a <= %s and 0 <= b <= %s, '
                      'dtw[a, b] == (0 if (a == 0 and b < i) else inf)))' % (R, C),
                      'psi_2b == %s' % P2B, 'psi_1b == %s' % P1B, 'r == %s' % R, 'c == %s' % C],
                 variant='psi_2b + 1 - i'),
         1: dict(head='for i in range(psi_1b + 1)',
-                inv=['forall(lambda a, b: implies(T2(a, b) and 0 <= a <= %s and 0 <= b <= %s, '
+                inv=['forall(lambda a, b: implies(0 <= a <= %s and 0 <= b <= %s, '
                      'dtw[a, b] == (0 if ((a == 0 and b <= psi_2b) or (b == 0 and a < i)) else inf)))' % (R, C),
                      'psi_2b == %s' % P2B, 'psi_1b == %s' % P1B, 'r == %s' % R, 'c == %s' % C],
                 variant='psi_1b + 1 - i'),
@@ -66,7 +66,7 @@ contract(
                 inv=SETTLED + ['i0 == i', 'i1 == i + 1', '0 <= i < r',
                                'j_start == JSrow(i, r, c, s.window)', 'j_end == JErow(i, r, c, s.window)',
                                ROWS_DONE.format(upto='i'), ROWS_TODO.format(frm='i + 1'),
-                               'forall(lambda b: implies(T2(i + 1, b) and 0 <= b <= %s, dtw[i + 1, b] == (W(i + 1, b) if b <= j else '
+                               'forall(lambda b: implies(0 <= b <= %s, dtw[i + 1, b] == (W(i + 1, b) if b <= j else '
                                '(0 if (b == 0 and i + 1 <= psi_1b) else inf))))' % C],
                 variant='j_end - j'),
     },
